@@ -475,10 +475,39 @@ func genC06(c *Corpus, pl pools, seed uint64, tier string) *RunSpec {
 		lim = 1 << 20
 	}
 	d := smallData(c, r, p, lim)
+	// every third seed belongs to a sweep over all (hand-written special profile, document) pairs: each of them
+	// exists because some defect needed exactly that input, so none of them is left to chance
+	sweep := false
+	if seed%3 == 0 {
+		var pairs [][2]int
+		for _, sp := range pl.spec {
+			for j, dd := range c.Profiles[sp].Data {
+				if dd.Size <= lim {
+					pairs = append(pairs, [2]int{sp, j})
+				}
+			}
+		}
+		if len(pairs) > 0 {
+			pr := pairs[int(seed/3)%len(pairs)]
+			p, d = pr[0], pr[1]
+			sweep = true
+		}
+	}
 	t := pickInstant(r)
 	rc := r.intn(5)
 	// "across repeated calls": other work happens between two calls with the same inputs
 	other := func() Op {
+		if nd := len(c.Profiles[p].Data); nd > 1 && r.chance(map[bool]int{true: 60, false: 30}[sweep]) {
+			// a sibling document of the same profile (AMF numbers nodes the same way in every model: the two
+			// documents share node ids although they describe different things)
+			d2 := r.intn(nd)
+			if d2 == d {
+				d2 = (d2 + 1) % nd
+			}
+			if c.Profiles[p].Data[d2].Size <= lim {
+				return Op{Kind: "validate_cfg", P: p, D: d2, T: pickInstant(r), RC: r.intn(5), H: -1}
+			}
+		}
 		q := pl.small[r.intn(len(pl.small))]
 		if len(pl.spec) > 0 && r.chance(50) {
 			q = pl.spec[r.intn(len(pl.spec))]
